@@ -175,7 +175,9 @@ def run(repo: Repo, L: Ledger, tier: str):
                         continue
                     mine = carriers.get(f.qualname, set())
                     ok = isinstance(actual, ast.Name) and actual.id in mine
-                    if not ok and not isinstance(actual, ast.Constant):
+                    negated = isinstance(actual, ast.UnaryOp) and isinstance(actual.op, ast.Not) and isinstance(actual.operand, ast.Name) and actual.operand.id in mine
+                    other_param = isinstance(actual, ast.Name) and actual.id in f.params() and actual.id not in mine
+                    if not ok and not isinstance(actual, ast.Constant) and not negated and not other_param:
                         # something computed is passed: a local, a boolean expression over the flag, the result of a call
                         raise AnalysisError(f"C16.R3 {inst}: the argument '{norm(actual)[:50]}' is neither the caller's flag parameter nor a constant: whether it still carries the user's choice is not decided")
                     L.check(ok, "R3", inst, f"actual argument is the caller's carrier '{norm(actual)}'", f"actual argument for '{p}' is '{norm(actual)}', not the caller's own flag parameter", f.loc(call))
